@@ -92,6 +92,23 @@ CHECKS = {
                      "deep=True detects (and, with 'always', overwrites) differing files of equal size and mtime at top level and nested, at job and project level; excluded file names and unselected jobs are never created or modified; parallel in {2, True} yields the sequential tree.",
                 note="Trusted: tmpfs semantics. Outside: pool-internal thread interleavings, directory-name exclude patterns.",
                 ref="DESIGN.md §4 C15"),
+    "C17": dict(tech="SMT-backed symbolic execution (CrossHair+z3) over (workspace before, workspace after, selection, path spec) with the real create_linked_view on the real file system",
+                text="Bounded proof: for ANY subset m1 of a 6-job universe (keys/values with space, dot, non-ASCII, nested, heterogeneous) viewed first and ANY subset m2 (plus unrepresentable state points) viewed second, all jobs or a job_ids subset, automatic or custom path: "
+                     "the view holds exactly one relative 'job' link per selected job resolving to its directory at a path spelling its own state point, nothing but the directories leading there; the incremental result equals a from-scratch build; a third run changes no inode or mtime; "
+                     "rejected inputs (RuntimeError) leave the existing view unchanged.",
+                note="Trusted: tmpfs symlink semantics. Outside: >6 jobs, file systems without symlinks.",
+                ref="DESIGN.md §4 C17"),
+    "C19": dict(tech="SMT-backed symbolic execution (CrossHair+z3) over encoded directory layouts materialised on the real file system; every directory queried absolute and relative to every ancestor",
+                text="Bounded proof: for every layout of depth <= 4 (quick) / 5 (thorough) built from plain / 'workspace' / 32-hex levels with or without a project at each level (id-like names only below a project's workspace), get_project (search on/off) returns the nearest enclosing project, "
+                     "get_job returns the innermost job directory with the project whose workspace holds it, both raise LookupError otherwise and for non-existent paths; symlinked job directories belong to the project holding the link; init_project on an existing project (any content) changes no byte or mtime.",
+                note="Trusted: tmpfs path semantics. Outside: a 'workspace' directory that is itself a project root, symlinked project directories.",
+                ref="DESIGN.md §4 C19"),
+    "C20": dict(tech="direct z3 query generated from the AST of the live version gate (all integers) + SMT-backed symbolic execution (CrossHair+z3) of the gate on bounded ints/decimal strings and over generated legacy layouts migrated on the real file system",
+                text="z3 proves for ALL integers that the comparison chain of Project._check_schema_compatibility raises iff the version differs from the supported one (witnesses would be replayed); CrossHair confirms the executed gate for v in [-8,16] and as decimal strings; "
+                     "every foreign-version layout (current and legacy, 5 versions) is refused by Project(), get_project, init_project and upward search with the tree byte-identical; every generated v0/v1 project (3 names x 3 workspace dirs x version x cache x history x 0-2 jobs x colliding workspace) "
+                     "migrates to a project that opens with identical ids/state points/documents/files, a refused migration loses nothing and succeeds after the obstacle is removed, and a second migration is a no-op.",
+                note="Trusted: the AST-shape extraction of the gate (any unexpected shape is a harness error), tmpfs semantics. Outside: non-ASCII names, concurrent migrations, crashes during migration.",
+                ref="DESIGN.md §4 C20"),
 }
 NOT_YET = {}
 
